@@ -940,7 +940,9 @@ class ForeignKeyValidator(SOValidator):
         # Avoid importing the main module
         # to get the SQLObject class for isinstance
         if hasattr(value, 'sqlmeta'):
-            return value
+            # an instance stands for its id (cached as the instance, the
+            # <name>ID attribute would differ from what a fresh read shows)
+            return value.id
         if self.fkIDType is None:
             otherTable = findClass(self.soCol.foreignKey,
                                    self.soCol.soClass.sqlmeta.registry)
